@@ -229,13 +229,23 @@ def _mk_reduction(name):
             kw["keepdims"] = kd == 2
         if name in ("var", "std") and c.bool():
             kw["ddof"] = 1
-        form = c.int(0, 2)  # 0 function+kwargs, 1 method, 2 positional axis
+        form = c.int(0, 4)  # 0 function+kwargs, 1 method, 2 positional axis, 3 positional axis and dtype (NumPy's order), 4 dtype keyword
         has_method = name in ("sum", "mean", "prod", "var", "std", "max", "min")
+        has_dtype = name in ("sum", "mean", "prod", "var", "std")
         if form == 1 and not has_method:
             form = 0
-        if form == 2 and ("axis" not in kw or "ddof" in kw):
+        if form in (2, 3) and ("axis" not in kw or "ddof" in kw):
             form = 0
-        if form == 1:
+        if form in (3, 4) and not has_dtype:
+            form = 0
+        if form == 4:
+            kw["dtype"] = onp.float64
+        if form == 3:
+            kw2 = {k: v for k, v in kw.items() if k != "axis"}
+            meth = c.bool()
+            fn = lambda ns, x: (getattr(x, name)(kw["axis"], onp.float64, **kw2) if meth and hasattr(x, name)
+                                else getattr(ns, name)(x, kw["axis"], onp.float64, **kw2))
+        elif form == 1:
             fn = lambda ns, x: getattr(x, name)(**kw) if hasattr(x, name) else getattr(ns, name)(x, **kw)
         elif form == 2:
             kw2 = {k: v for k, v in kw.items() if k != "axis"}
@@ -244,10 +254,11 @@ def _mk_reduction(name):
             fn = lambda ns, x: getattr(ns, name)(x, **kw)
         dom = (0.5, 2.0) if name == "prod" else (-2, 2)
         neg = isinstance(ax, int) and ax < 0 or (isinstance(ax, tuple) and any(a < 0 for a in ax))
-        return Call("r:" + name, fn, [s], dom=dom, cplx=name in ("sum", "mean", "prod", "var", "std"),
-                    desc=[name, list(s), {k: (list(v) if isinstance(v, tuple) else v) for k, v in kw.items()}, form],
+        # (a real dtype request on complex input makes NumPy discard the imaginary part with a ComplexWarning: not drawn)
+        return Call("r:" + name, fn, [s], dom=dom, cplx=name in ("sum", "mean", "prod", "var", "std") and form not in (3, 4),
+                    desc=[name, list(s), {k: (list(v) if isinstance(v, tuple) else v) for k, v in kw.items() if k != "dtype"}, form],
                     feats={"fn": name, "axis_kind": akind, "axis_neg": bool(neg), "keepdims": kw.get("keepdims"),
-                           "ddof": kw.get("ddof", 0), "form": ["func", "method", "positional"][form], "ndim": nd,
+                           "ddof": kw.get("ddof", 0), "form": ["func", "method", "positional", "positional_dtype", "dtype_kw"][form], "ndim": nd,
                            "naxes": len(ax) if isinstance(ax, tuple) else None})
 
     template("r:" + name, "reduction", has_kink=name in ("max", "min", "amax", "amin"))(draw)
@@ -269,3 +280,40 @@ def _t_cumsum(c):
         fn = (lambda ns, x: ns.cumsum(x, axis=ax)) if form == 0 or nd == 0 else (lambda ns, x: x.cumsum(ax))
     return Call("r:cumsum", fn, [s], desc=["cumsum", list(s), ax, form],
                 feats={"fn": "cumsum", "axis_kind": akind, "axis_neg": isinstance(ax, int) and ax < 0, "ndim": nd})
+
+
+@template("r:numpy_positional", "reduction", weight=2)
+def _t_numpy_positional(c):
+    """Reductions and cumulative functions called with NumPy's own positional argument order (axis, dtype, out, ...), where
+    autograd's derivative rules declare their parameters in a different order."""
+    name = c.choice(["sum", "mean", "prod", "var", "std", "max", "min", "cumsum", "sum", "mean", "prod"])
+    r = c.int(1, 3)
+    side = c.int(2, 3)
+    s = tuple(side if c.chance(2, 3) else c.int(1, 3) for _ in range(r))  # mostly equal sides: a misplaced axis stays shape-legal
+    nd = len(s)
+    ax = c.axis(nd)
+    if name in ("sum", "mean", "prod") and c.chance(1, 4):
+        ax = tuple(c.signed_axis(a, nd) for a in c.sample(range(nd), c.int(1, nd)))
+    meth = c.bool()
+    dt = c.choice([onp.float64, float, None])
+    nargs = c.int(1, 4)  # how many of NumPy's positional parameters after `a` are given
+    if name in ("sum", "mean", "prod"):
+        pos = [ax, dt, None, c.bool()][:nargs]  # axis, dtype, out, keepdims
+    elif name in ("var", "std"):
+        pos = [ax, dt, None, c.int(0, 1)][:nargs]  # axis, dtype, out, ddof
+    elif name in ("max", "min"):
+        pos = [ax, None, c.bool()][:min(nargs, 3)]  # axis, out, keepdims
+    else:
+        pos = [ax, dt][:min(nargs, 2)]  # axis, dtype
+
+    def fn(ns, x):
+        if meth and hasattr(x, name):
+            return getattr(x, name)(*pos)
+        return getattr(ns, name)(x, *pos)
+
+    dom = (0.5, 2.0) if name == "prod" else (-2, 2)
+    show = [p if not isinstance(p, type) else p.__name__ for p in pos]
+    return Call("r:numpy_positional", fn, [s], dom=dom, cplx=False, desc=[name, list(s), [list(p) if isinstance(p, tuple) else p for p in show], meth],
+                feats={"fn": name, "npos": len(pos), "method": meth, "ndim": nd, "square": len(set(s)) == 1,
+                       "axis_neg": isinstance(ax, int) and ax < 0, "dtype_given": len(pos) >= 2 and name not in ("max", "min")},
+                kink=None)
